@@ -105,6 +105,9 @@ func backoffCheck(w *world, name string, from time.Time, rtoMax time.Duration, m
 	settle := time.Duration(0)
 	for _, f := range w.cfg.Fault {
 		d := time.Duration(f.LatencyUs+f.JitterUs)*time.Microsecond + time.Duration(f.HoldMaxMs)*time.Millisecond + 100*time.Millisecond
+		if f.AlignPPM > 0 {
+			d += 3 * time.Second // a packet may have been held back until a timer expiry up to 3 s later
+		}
 		if d > settle {
 			settle = d
 		}
